@@ -162,15 +162,16 @@ def regress_items():
 def differential(ctx, n_prog, cfgs, salt="gen", features=None):
     t0 = time.time()
     items, stats = D.generate(ctx, salt, n_prog, features=features, ncalls=8 if ctx.tier == "thorough" else 5,
-                              nprobe=4 if ctx.tier == "quick" else max(8, n_prog // 12))
+                              nprobe=4 if ctx.tier == "quick" else 12)
     reg = regress_items()
     for it, m in zip(reg, H.model_eval([(r["prog"], r["calls"]) for r in reg], "c01reg")):
         it["model"] = m
     items = reg + items
     stats["regression_programs"] = [r["name"] for r in reg]
     t_gen = time.time() - t0
-    if ctx.tier == "quick":
-        D.sample_configs(items, cfgs, 4, salt=ctx.seed)
+    # every random program runs under a rotating subset of the configurations (quick 4 of 10, thorough 24 of ~110: the 40
+    # minute budget does not allow the full product); probe-only and regression programs run under all of them
+    D.sample_configs(items, cfgs, 4 if ctx.tier == "quick" else 24, salt=ctx.seed)
     obs = D.observe_all(items, cfgs, procs=4)
     n_cmp = 0
     n_calls = 0
@@ -281,7 +282,7 @@ def run(ctx):
             return
     n_tie = part_expr_tie(ctx)
     cfgs = configs(ctx.tier)
-    n = 24 if ctx.tier == "quick" else 300
+    n = 24 if ctx.tier == "quick" else 240
     items, stats = differential(ctx, n, cfgs)
     ctx.corr["generator"] = stats
     ctx.corr["configs"] = [c.name for c in cfgs]
